@@ -5,6 +5,8 @@ def register(PROPS, HARNESS_PKGS):
     part = {
         "name": "admission",
         "mc": [{"module": "Admission", "cfg": "Admission_mc.cfg"}],
+        # the token-bucket design satisfies the window bound for EVERY horizon and number of admissions (TLAPS)
+        "proofs": ["BucketProof"],
         "quick": {"gen": [g("{60, 600}", "{1, 3}", allb),
                           # a global limit next to the per-IP one (tighter and looser than it)
                           g("{60, 600}", "{3}", '{"keepalive1", "twoips", "mixhealth"}', '{"rate"}', "{120}")]},
@@ -15,7 +17,7 @@ def register(PROPS, HARNESS_PKGS):
         "nontrivial": lambda s: s["kind"] == "rate" or s["size"] in ("max+1", "5max") or s["lenmode"] == "chunked",
     }
     bucket = dict(part)
-    bucket.update({"name": "bucket", "mc": [], "pkg": "internal/adapter/security", "test": "TestVerif_Bucket",
+    bucket.update({"name": "bucket", "mc": [], "proofs": [], "pkg": "internal/adapter/security", "test": "TestVerif_Bucket",
                    "harness_dirs": ["security"], "harness_files": ["bucket_test.go"],
                    "quick": {"gen": [g("{60, 600}", "{1, 3}", '{"keepalive1"}', '{"bucket"}')]},
                    "thorough": {"gen": [g("{60, 120, 600}", "{1, 3, 5}", '{"keepalive1"}', '{"bucket"}')]},
